@@ -8,7 +8,7 @@ CONSTANTS
   MaxLen = 1
   MaxN = 2
   Over = 2
-  CodeVals = {0, 1, 127, 128, 129, 383, 384, 16511, 16512, 16513, 16768, 2113663, 2113664, 2113665}
+  CodeVals = {0, 1, 127, 128, 129, 383, 384, 16511, 16512, 16513, 16767, 16768, 16769, 82047, 82048, 82049, 2113663, 2113664, 2113665}
   Export = FALSE
 INVARIANTS InvType InvSorted InvGet InvIter InvIndex InvSize InvCode
 CHECK_DEADLOCK FALSE
